@@ -1296,8 +1296,95 @@ def s_switch(ctx, quick):
             what='Request.enc_request under the CURRENT version vs the bytes emitted after a version switch')
 
 
+# ---------------------------------------------------------------------- attribute names <-> tags under KMIP 2.0 (round 8, C19O)
+def _norm_attr_name(n):
+    import re
+    return re.sub(r'[^A-Z0-9]+', '_', n.replace('#', '').upper()).strip('_')
+
+
+def s_attrnames(ctx, quick):
+    """KMIP 2.0 carries attributes by TAG, the client API speaks NAMES.  The expected pairing is built independently of the
+    library's attribute_name_tag_table: the names are that table's first column, the tag of a name is the member of the Tags
+    enumeration spelled like the name (the specification's naming; the member VALUES are the specification's tag numbers).
+    For every pair: a hand-encoded (clientdrv.ttlv) GetAttributeList response carrying the tag must be reported under the
+    name, and get_attributes(uid, [name]) must emit an Attribute Reference carrying the tag."""
+    import struct
+    import ttlvparse
+    from kmip.core import enums as E
+    T = E.Tags
+    V20 = E.KMIPVersion.KMIP_2_0
+    by_member = {t.name: t for t in T}
+    names = [row[0] for row in E.attribute_name_tag_table]
+    pairs = [(n, by_member[_norm_attr_name(n)]) for n in names if _norm_attr_name(n) in by_member]
+    unpaired = [n for n in names if _norm_attr_name(n) not in by_member]
+    if unpaired or len(set(t for _, t in pairs)) != len(pairs):
+        ctx.broken.append({'kind': 'correspondence', 'name': 'harness/c19.py:attrnames',
+                           'detail': 'attribute names without a Tags member of the same spelling, or two names for one tag: %r' % unpaired,
+                           'candidates': []})
+
+    def i_(tag, v):
+        return D.ttlv(tag.value, 2, struct.pack('!i', v))
+
+    def e_(tag, v):
+        return D.ttlv(tag.value, 5, struct.pack('!I', v))
+
+    def response(op, items):
+        return D.t_struct(T.RESPONSE_MESSAGE,
+                          D.t_struct(T.RESPONSE_HEADER,
+                                     D.t_struct(T.PROTOCOL_VERSION, i_(T.PROTOCOL_VERSION_MAJOR, 2), i_(T.PROTOCOL_VERSION_MINOR, 0)),
+                                     D.ttlv(T.TIME_STAMP.value, 9, struct.pack('!q', 1700000000)),
+                                     i_(T.BATCH_COUNT, 1)),
+                          D.t_struct(T.BATCH_ITEM, e_(T.OPERATION, op.value), e_(T.RESULT_STATUS, 0),
+                                     D.t_struct(T.RESPONSE_PAYLOAD, *items)))
+
+    n_resp = n_req = 0
+    for name, tag in pairs:
+        other = pairs[(pairs.index((name, tag)) + 1) % len(pairs)]
+        frame = response(OP.GET_ATTRIBUTE_LIST, [D.t_text(T.UNIQUE_IDENTIFIER, '1'),
+                                                 e_(T.ATTRIBUTE_REFERENCE, tag.value), e_(T.ATTRIBUTE_REFERENCE, other[1].value)])
+        sock = D.ChunkSock(lambda data, frame=frame: [frame[:11], frame[11:]])
+        cl = D.make_client(V20, sock)
+        out = D.run_call(lambda: cl.get_attribute_list('1'))
+        n_resp += 1
+        want = sorted([name, other[0]])
+        if out[0] != 'return' or sorted(out[1]) != want:
+            ctx.violation({'client': 'pie', 'op': 'get_attribute_list', 'what': 'attribute-name-misreported', 'attribute': name},
+                          {'method': 'get_attribute_list', 'kmip_version': 'KMIP_2_0', 'response_hex': frame.hex(),
+                           'chunks': [11, len(frame) - 11], 'expected': want, 'got': repr(out)[:300]},
+                          'KMIP 2.0 GetAttributeList response carrying tags %s (0x%06X) and %s: the client reports %s instead of %s'
+                          % (tag.name, tag.value, other[1].name, repr(out[1] if out[0] == 'return' else out)[:200], want))
+        # request side: the reference the client emits for the name
+        ok = response(OP.GET_ATTRIBUTES, [D.t_text(T.UNIQUE_IDENTIFIER, '1')])
+        sock = D.ChunkSock(lambda data, ok=ok: [ok])
+        cl = D.make_client(V20, sock)
+        D.run_call(lambda: cl.get_attributes('1', [name]))
+        n_req += 1
+        refs = []
+        if sock.sent:
+            def walk(it):
+                if it['type'] == 1:
+                    for ch in it['value']:
+                        walk(ch)
+                elif it['tag'] == T.ATTRIBUTE_REFERENCE.value:
+                    refs.append(it['value'])
+            try:
+                walk(ttlvparse.parse(sock.sent[0])[0])
+            except Exception:
+                refs = []
+        got = refs[0] if refs else None
+        if got != tag.value:
+            ctx.violation({'client': 'pie', 'op': 'get_attributes', 'what': 'attribute-reference-misencoded', 'attribute': name},
+                          {'method': 'get_attributes', 'kmip_version': 'KMIP_2_0', 'arguments': repr(['1', [name]]),
+                           'request_hex': sock.sent[0].hex() if sock.sent else None, 'expected_tag': tag.value, 'got': got},
+                          'get_attributes(uid, [%r]) under KMIP 2.0 emits Attribute Reference %r instead of tag %s (0x%06X)'
+                          % (name, got, tag.name, tag.value))
+    ctx.cov['attrnames'] = {'pairs': len(pairs), 'responses': n_resp, 'requests': n_req}
+    ctx.log('attribute names under KMIP 2.0: %d name/tag pairs, %d hand-encoded GetAttributeList responses, %d GetAttributes requests parsed independently'
+            % (len(pairs), n_resp, n_req))
+
+
 STREAMS = [('pie', s_pie), ('framing', s_framing), ('calls', s_calls), ('proxy', s_proxy), ('valuebytes', s_valuebytes),
-           ('optfields', s_optfields), ('withblock', s_withblock), ('requests', s_requests), ('argmenus', s_argmenus), ('server', s_server), ('switch', s_switch)]
+           ('optfields', s_optfields), ('withblock', s_withblock), ('requests', s_requests), ('argmenus', s_argmenus), ('server', s_server), ('switch', s_switch), ('attrnames', s_attrnames)]
 
 
 def guarded(ctx, name, fn, *a):
